@@ -289,6 +289,34 @@ def run_case(case):
                 if not all(r_ >= 3.5 for r_ in ratios):
                     add("explicit_implicit_order", "terms %s: |explicit-implicit| for four successive halvings of dt is %s (ratios %s, expected ~4)"
                         % ("+".join(ts), ["%.3g" % x for x in diffs], ["%.2f" % x for x in ratios]), terms=list(ts))
+            # (vii) predictor/corrector from one and the same variable object: boundary data change, an
+            #       explicit step is taken from v (its result is only a predictor), then the implicit step is
+            #       taken from v itself; it must satisfy the residual form with the *current* boundary data
+            v = pf.CellVariable(g.mesh, old0.copy(), make_bc(g, setup))
+            v.apply_BCs()
+            dt = 2.0 ** -8
+            for ax in range(g.d):
+                for side in U.SIDES[ax]:
+                    bf = getattr(v.BCs, side)
+                    if not bf.periodic and np.asarray(bf._c).size:
+                        bf.c = np.array(bf._c) * 1.5 + 0.375
+            pred = pf.solveExplicitPDE(v, dt, explicit_rhs(v))
+            eq = [pf.transientTerm(v, dt, 1.0)] + Ms + vs
+            ref = pf.CellVariable(g.mesh, old0.copy(), make_bc(g, setup))
+            for ax in range(g.d):
+                for side in U.SIDES[ax]:
+                    o, n_ = getattr(v.BCs, side), getattr(ref.BCs, side)
+                    if np.asarray(o._c).size:
+                        n_.c = np.array(o._c)
+            kap = eq_cond(total_matrix(ref, [pf.transientTerm(ref, dt, 1.0)] + Ms + vs))
+            pf.solvePDE(ref, [pf.transientTerm(ref, dt, 1.0)] + Ms + vs)
+            pf.solvePDE(v, eq)
+            res["evals"] += 3
+            res["nontrivial"] += 1
+            scv = max(1.0, float(np.max(np.abs(np.asarray(ref.value)))))
+            if not np.all(np.abs(np.asarray(v.value) - np.asarray(ref.value)) <= 64 * EPS * kap * scv):
+                add("predictor_corrector", "terms %s: after a boundary-data change and an explicit (predictor) step from a variable, the implicit step from that same variable differs from a fresh start by %.3g"
+                    % ("+".join(ts), float(np.max(np.abs(np.asarray(v.value) - np.asarray(ref.value))))), terms=list(ts))
             # (vi) mixed sequences of three steps
             for seq in itertools.product("IE", repeat=3):
                 v = pf.CellVariable(g.mesh, old0.copy(), make_bc(g, setup))
